@@ -15,7 +15,7 @@ R33e  every add_communication_state(K) for a kind that has a listener callback s
 from collections import defaultdict
 from vplib import expr as E
 from vplib.facts import path_endswith, short_ty
-from rules.common import FnCtx, adder, field_adt
+from rules.common import FnCtx, adder, field_adt, field_adt_defs
 
 TECHNIQUE = "guard-free path search per send site with level classification by owner ADT of mask/sender; sibling agreement across status kinds; match-arm divergence of listener tasks"
 ASSUMPTIONS = ["StatusKind names equal ListenerMail variant names (checked against the ADT tables)"]
@@ -59,8 +59,10 @@ def sends(fc):
             continue
         a = fc.arg(t, 1)
         if a[0] == "adt" and path_endswith(a[1], "ListenerMail"):
-            adt = field_adt(fc, t.args[0], "listener_sender")
-            out.append((bb, t, a[2], LEVEL.get(adt), adt))
+            # a sender that is chosen first (`let sender = match level { Entity => &reader.listener_sender, .. }`) stands for one send
+            # per choice, located where the choice is made
+            for dbb, adt in field_adt_defs(fc, t.args[0], "listener_sender"):
+                out.append((bb if dbb is None else dbb, t, a[2], LEVEL.get(adt), adt))
     return out
 
 
